@@ -337,7 +337,48 @@ def run_witness(d: Decl, extra_inputs=(), features=()):
         elif 'probe' in j:
             probes.append(j)
     res.extend(c16_witnesses(d, probes))
+    res.extend(c16_naming_witnesses(d, probes))
     return res, '\n'.join(l for l in out.splitlines() if '"probe"' not in l)[-2000:]
+
+
+def c16_naming_witnesses(d, probes):
+    """C16: every bound-violation message produced by the real code names the newtype and the declared
+    bound (the bound's value under the setting in force)."""
+    import re
+    out = []
+    seen = set()
+    for p in probes:
+        if p['verdict'] == 'Ok' or not p['message'] or (p['setting'], p['verdict']) in seen:
+            continue
+        seen.add((p['setting'], p['verdict']))
+        var = p['verdict']
+        v = next((v for v in d.validators if v.bound is not None and var.startswith({'greater': 'GreaterViolated', 'greater_or_equal': 'GreaterOrEqualViolated', 'less': 'LessViolated', 'less_or_equal': 'LessOrEqualViolated', 'len_char_min': 'LenCharMinViolated', 'len_char_max': 'LenCharMaxViolated'}.get(v.kind, '~'))), None)
+        if v is None:
+            continue
+        msg = p['message']
+        if d.name not in msg:
+            out.append({'entry': 'MessageNaming', 'input': p['probe'], 'bounds': p['setting'], 'real': msg, 'expected': 'a message naming the type %s' % d.name})
+            continue
+        # expected bound value: literal, or the setting of the symbolic bound
+        want = None
+        if v.bound.symbolic:
+            m = re.search(r'(?:len_)?%s=(\S+)' % ('lo' if ('lo' in v.bound.src) else 'hi'), p['setting'])
+            want = m.group(1) if m else None
+        elif v.bound.value is not None:
+            want = str(v.bound.value)
+        else:
+            want = v.bound.src.replace('_', '')
+        if want is None:
+            continue
+        nums = re.findall(r'-?\d+(?:\.\d+)?(?:e-?\d+)?|-?inf|NaN', msg.replace(d.name, ''))
+        def same(a, b):
+            try:
+                return float(a) == float(b)
+            except ValueError:
+                return a == b
+        if not any(same(x, want) for x in nums):
+            out.append({'entry': 'MessageNaming', 'input': p['probe'], 'bounds': p['setting'], 'real': msg, 'expected': 'a message naming the declared bound %s' % want})
+    return out[:3]
 
 
 def c16_witnesses(d, probes):
